@@ -318,6 +318,14 @@ def g_line_pairs(ctx, rng, i):
             _pair_check(ctx, cf.components, gv, hv, [gf, hf])
         except Exception:
             pass
+        # mixed representations: one line in integers, the other one with non-integral coordinates (both argument orders)
+        frac = gen.pick(rng, [0.25, 0.5, 0.375, 1.5])
+        for ga, ha in ((gv, hv * frac), (gv * frac, hv), (gv.astype(np.int32), hv * frac), (gv * frac, hv.astype(np.int16))):
+            try:
+                cm = g.Conic.from_lines(g.Line(ga), g.Line(ha))
+                _pair_check(ctx, cm.components, gv, hv, [ga, ha])
+            except Exception:
+                pass
         circ = g.Circle(g.Point(*gen.coords(rng, (2,), 3, "int").tolist()), float(rng.integers(2, 6)))
         for f_ in (lambda: cf.intersect(circ), lambda: circ.intersect(cf)):
             try:
@@ -378,6 +386,13 @@ def g_plane_pairs(ctx, rng, i):
             _pair_check(ctx, qf.components, ev, fv, [ev * s1, fv * s2])
         except Exception:
             pass
+        frac = gen.pick(rng, [0.25, 0.5, 0.375, 1.5])
+        for ea, fa in ((ev, fv * frac), (ev * frac, fv), (ev.astype(np.int32), fv * frac)):
+            try:
+                qm = g.Quadric.from_planes(g.Plane(ea), g.Plane(fa))
+                _pair_check(ctx, qm.components, ev, fv, [ea, fa])
+            except Exception:
+                pass
 
 
 def g_irreducible(ctx, rng, i):
